@@ -234,6 +234,12 @@ def _(w):
     return impl.URL("http://h.com/d/e.txt").with_suffix("." + w)
 
 
+@route("with_suffix_multi", "mod", lambda w: ([], {"has_authority": True}))
+def _(w):
+    # a name with several dots; the word is the whole new suffix ('' removes the last one)
+    return impl.URL("http://h.com/d/e.tar.gz?q#f").with_suffix(w if (w == "" or w.startswith(".")) else "." + w, keep_query=True)
+
+
 @route("with_fragment", "mod", _one("fragment", "decoded", has_authority=True))
 def _(w):
     return impl.URL(BA).with_fragment(w)
